@@ -708,6 +708,31 @@ def c17_generate(rng, tier):
         if kind == "rank" and sum(d) > 5:
             d[rng.randrange(n)] -= sum(d) - 5
         d2 = genhist.apply_script(n, E, d, genhist.random_script(rng, n)) if rng.random() < 0.5 else [x + rng.choice([0, 0, 1, -1]) for x in d]
+        if rng.random() < 0.12:
+            # edge bundles beyond double precision, borderline divisors (an effective divisor, or one
+            # chip short of it, moved by a small script): any floating-point step depends on the order
+            # the vertices are laid out in, i.e. on their names
+            n = rng.randint(3, 4)
+            E = {}
+            perm = list(range(n))
+            rng.shuffle(perm)
+            for i2 in range(1, n):
+                a, b = perm[rng.randrange(i2)], perm[i2]
+                E[(min(a, b), max(a, b))] = 2 ** rng.randint(53, 60) + rng.randint(1, 9)
+            if rng.random() < 0.7:
+                a, b = rng.sample(range(n), 2)
+                E[(min(a, b), max(a, b))] = E.get((min(a, b), max(a, b)), 0) + 2 ** rng.randint(50, 58) + rng.randint(0, 5)
+            eff = [rng.randint(0, 3) for _ in range(n)]
+            if rng.random() < 0.5:
+                eff[rng.randrange(n)] -= 1
+            d = genhist.apply_script(n, E, eff, [rng.randint(-2, 2) for _ in range(n)])
+            d2 = list(eff)
+            order0 = list(range(n))
+            rng.shuffle(order0)
+            g = {"n": n, "edges": gen.present_edges(rng, E, split=False), "names": gen.gen_names(rng, n), "vlist": order0, "vaslist": False,
+                 "_kind": "hugebundle", "_genus": gen.genus_of(n, E)}
+            kind = rng.choice(["api", "lin_equiv", "ewd_opt"])
+            debt = "huge"
         gid += 1
         variants = [(dict(g, _sigma=list(range(n))), d, d2)]
         for _ in range(2):
@@ -722,6 +747,8 @@ def c17_generate(rng, tier):
             rng.shuffle(order)
             if kind == "ewd":
                 s.update(op="ewd", deg=dd, opt=False, viz=False, dorder=order, _cmp=["verdict", "D"])
+            elif kind == "ewd_opt":
+                s.update(op="ewd", deg=dd, opt=True, viz=False, dorder=order, _cmp=["verdict"])
             elif kind == "api":
                 s.update(op="api", deg=dd, _cmp=["is_winnable", "q_reduction"])
             elif kind == "rank":
